@@ -38,7 +38,11 @@ def main(chk):
                 params['epsilon'] = 30.0           # low-noise regime: one record is comparable to the noise (data-dependent branches show up here)
             if name == 'mwem' and rng.random() < 0.5:
                 params['bounded'] = False           # add/remove neighbours change the record count
-            info = dict(mechanism=name, params={k: (v if not isinstance(v, list) else [list(x) for x in v]) for k, v in params.items()}, attrs=names, sizes=sizes, records=int(data.df.shape[0]))
+            if name == 'aim' and r % 3 == 2:
+                params['explicit_prng'] = True      # the constructor's third positional parameter is not the generator everywhere
+            if name == 'adagrid' and r % 2 == 0 and len(names) >= 3:
+                params['targets'] = [names[-1]]
+            info = dict(mechanism=name, params={k: (v if not isinstance(v, list) else [(list(x) if isinstance(x, (list, tuple)) else x) for x in v]) for k, v in params.items()}, attrs=names, sizes=sizes, records=int(data.df.shape[0]))
             res = dprec.pair_of_runs(rng, name, params, data, seed=rng.randrange(2 ** 31))
             info['neighbour'] = res['neighbour']
             chk.count('mechanism.' + name); chk.count('adjacency.' + ('replace' if res['bounded'] else 'add/remove'))
@@ -65,6 +69,22 @@ def main(chk):
                 chk.violation(dict(kind='release-sequence', mechanism=name), '%s: %s' % (name, bad),
                               dict(info, events=dprec.describe_events(res['rec1']), events_neighbour=dprec.describe_events(res['rec2'])), found_input=True)
                 continue
+            # non-interference proper: ANY dataset of the same shape, forced to the same observations, must lead to the same primitives with the
+            # same descriptors and to the same output (a single changed record flips a data-dependent branch only near its threshold)
+            rec3, err3 = dprec.forced_run(name, params, dprec.far_dataset(rng, data), res['rec1'].seed, res['rec1'], res['bounded'])
+            chk.count('far-dataset-forced-run')
+            if err3 is None:
+                e3 = rec3.events
+                d3 = rec3.diverged or (None if len(e3) == len(e1) else '%d releases/selections on D, %d on the other dataset' % (len(e1), len(e3)))
+                if d3 is None:
+                    for i, (a, b) in enumerate(zip(e1, e3)):
+                        if a['kind'] != b['kind'] or a['site'] != b['site'] or (a['kind'] == 'select' and a['n'] != b['n']) or \
+                           (a['kind'] != 'select' and (a['size'] != b['size'] or not (abs(a['scale'] - b['scale']) <= 1e-12 * abs(a['scale'])))):
+                            d3 = 'event %d differs (%s scale %s vs %s scale %s)' % (i, a['kind'], a.get('scale'), b['kind'], b.get('scale')); break
+                if d3:
+                    chk.violation(dict(kind='release-sequence', mechanism=name, other='far-dataset'), '%s: forced to the same released values and selections, an unrelated dataset of the same shape performs different primitives: %s' % (name, d3),
+                                  dict(info, events=dprec.describe_events(res['rec1']), events_other=dprec.describe_events(rec3)), found_input=True)
+                    continue
             s1, s2 = res['synth1'], res['synth2']
             try:
                 same = s1.df.shape == s2.df.shape and list(s1.df.columns) == list(s2.df.columns) and np.array_equal(s1.df.values, s2.df.values)
@@ -77,7 +97,7 @@ def main(chk):
             if c:
                 chk.violation(dict(kind='output-domain', mechanism=name), '%s: %s' % (name, c), info, found_input=True)
     return chk.finish(rule='per mechanism (MST, AIM incl. explicit prng / growing candidate sets, MWEM+PGM gaussian/laplace bounded/unbounded, Adaptive Grid with/without targets): random small datasets '
-                      '(2-4 attributes, sizes 1-4 incl. single-valued attributes, 20-120 records), eps in {.5,1,3,30} (every third repetition eps=30: low-noise regime), one neighbour (remove / replace one record); '
+                      '(2-4 attributes, sizes 1-4 incl. single-valued attributes, 20-120 records), eps in {.5,1,3,30} (every third repetition eps=30: low-noise regime), one neighbour (remove / replace one record) and one unrelated dataset of the same shape, both forced to the observations of the first run; '
                       'run on D recording released values and selections, run on D\' forced to them; compared: event kinds, call sites, noise scales, sizes, candidate counts, returned data frames; result vs the '
                       'ORIGINAL input domain. Every pair is non-trivial.',
                       assumptions=['post-processing randomness comes from the global numpy generator re-seeded identically; the primitives draw from a separate stream',
